@@ -213,7 +213,7 @@ def run(ck):
 
     # ---- 3. Listener.serve with the production matchers (and random tables) on a scripted conn
     cases = []
-    for i in range(50000 if T else 2200):
+    for i in range(50000 if T else 1800):
         data = gen_stream(rng, 100 if not T else 500)
         nch = 3 if T else 2
         for _ in range(nch):
